@@ -25,10 +25,12 @@ class RErr(Exception):
 
 
 class Gen(object):
-    def __init__(self, rnd, sync, batch_free=False):
+    def __init__(self, rnd, sync, batch_free=False, dag=False):
         self.rnd = rnd
         self.sync = sync
         self.batch_free = batch_free      # C15: trees of tasks, constant futures, None, nested structures, raises, try/except
+        self.dag = dag                    # third family: tasks awaited by several parents (no contexts)
+        self.pool = []                    # descriptions of the shared tasks
         self.n = 0
 
     def nid(self):
@@ -39,8 +41,14 @@ class Gen(object):
         r = self.rnd
         nsteps = r.choice((1, 1, 2, 2, 3)) if depth < 2 else r.choice((0, 1, 1, 2))
         d = {"id": self.nid(), "steps": [self.struct(depth, 0) for _ in range(nsteps)],
-             "catch": r.random() < 0.4, "raise_at": None, "ctx": r.random() < 0.4 and not self.batch_free, "sync_at": None,
-             "sync_child": None}
+             "catch": r.random() < 0.4, "raise_at": None, "ctx": r.random() < 0.4 and not self.batch_free and not self.dag,
+             "sync_at": None, "sync_child": None, "reyield": None}
+        if nsteps >= 2 and r.random() < 0.25 and not self.batch_free:
+            # a later step yields the very same container object an earlier step yielded
+            j = r.randrange(1, nsteps)
+            i = r.randrange(0, j)
+            if d["steps"][i][0] in ("tuple", "list", "dict"):
+                d["reyield"] = (j, i)
         if nsteps and r.random() < (0.3 if self.batch_free else 0.15):
             d["raise_at"] = r.randrange(nsteps)
         if self.sync and depth < 2 and nsteps and r.random() < 0.3:
@@ -71,6 +79,15 @@ class Gen(object):
             if x < 0.85:
                 return {"lid": lid, "k": "const", "v": lid}
             return {"lid": lid, "k": "none"}
+        if self.dag and r.random() < 0.22:
+            # a task that other tasks of the program await as well (created by whoever reaches it first)
+            # (only completely generated pool entries can be referenced, so the program stays acyclic)
+            if self.pool and (len(self.pool) >= 4 or r.random() < 0.6):
+                return {"lid": lid, "k": "shared", "sid": r.randrange(len(self.pool))}
+            if depth < 3 and len(self.pool) < 6:
+                td = self.task(3 if depth >= 2 else depth + 1)
+                self.pool.append(td)
+                return {"lid": lid, "k": "shared", "sid": len(self.pool) - 1}
         if x < (0.42 if depth < 2 else 0.25) and depth < 3:
             return {"lid": lid, "k": "task", "task": self.task(depth + 1)}
         if x < 0.72:
@@ -91,15 +108,23 @@ class Gen(object):
 
 # ---- sequential reference ------------------------------------------------------------------------------------------
 
+_POOL = {"descs": [], "ref": {}}
+
+
 def ref_task(d):
     """-> ('val', (id, records)) | ('exc', tag)"""
     recs = []
+    memos = {}
     for k, st in enumerate(d["steps"]):
         if d["sync_at"] == k:
             o = ref_task(d["sync_child"])
             recs.append(("sync", o))
         memo = {}
         errs = []
+        if d.get("reyield") and d["reyield"][0] == k:
+            # the same container object as in an earlier step: its futures are the same, already computed, futures
+            st, memo = d["steps"][d["reyield"][1]], memos[d["reyield"][1]]
+        memos[k] = memo
         v = ref_struct(st, memo, errs)
         if errs:
             if d["catch"]:
@@ -131,6 +156,10 @@ def ref_leaf(l, memo, errs):
             o = ("exc", "lazy%d" % l["lid"]) if l["fail"] else ("val", l["v"])
         elif k == "lazysync":
             o = ref_task(l["task"])
+        elif k == "shared":
+            if l["sid"] not in _POOL["ref"]:
+                _POOL["ref"][l["sid"]] = ref_task(_POOL["descs"][l["sid"]])
+            o = _POOL["ref"][l["sid"]]
         else:
             o = ("exc", "TypeError")
         memo[l["lid"]] = o
@@ -309,6 +338,24 @@ def build_and_run(prog, pid, yield_only):
                         "of the enclosing computation is not what it was" % where, task=tid, stack_before=len(tasks), stack_after=len(now._tasks),
                         active_before=repr(active)[:80], active_after=repr(now.active_task)[:80])
 
+    shared_inst = {}
+
+    def snapshot_of(y):
+        if type(y) is list:
+            return ("list", [(m, snapshot_of(m)) for m in y])
+        if type(y) is tuple:
+            return ("tuple", [(m, snapshot_of(m)) for m in y])
+        if type(y) is dict:
+            return ("dict", [(k, m, snapshot_of(m)) for k, m in y.items()])
+        return None
+
+    def unmodified(y, snap):
+        if snap is None:
+            return True
+        if snap[0] in ("list", "tuple"):
+            return len(y) == len(snap[1]) and all(a is m and unmodified(a, sn) for a, (m, sn) in zip(y, snap[1]))
+        return list(y.keys()) == [k for k, _m, _s in snap[1]] and all(y[k] is m and unmodified(y[k], sn) for k, m, sn in snap[1])
+
     def realize(d, st, made):
         if st[0] == "leaf":
             l = st[1]
@@ -335,6 +382,13 @@ def build_and_run(prog, pid, yield_only):
                     def provider(v=l["v"]):
                         return v
                 o = futures.Future(provider)
+            elif k == "shared":
+                if l["sid"] not in shared_inst:
+                    td = _POOL["descs"][l["sid"]]
+                    shared_inst[l["sid"]] = make(td, None).asynq()
+                    run.inst[td["id"]] = shared_inst[l["sid"]]
+                    run.tasks.append(shared_inst[l["sid"]])
+                o = shared_inst[l["sid"]]
             elif k == "lazysync":
                 def provider(td=l["task"]):
                     # the awaiting task is suspended but its contexts are active: the provider is work it awaits.  Whether they
@@ -374,6 +428,7 @@ def build_and_run(prog, pid, yield_only):
             run.running.append(tid)
             try:
                 recs = []
+                yielded = {}
                 with contextlib.ExitStack() as stack:
                     if d["ctx"]:
                         run.ctx_of[tid] = "c%d" % tid
@@ -393,8 +448,13 @@ def build_and_run(prog, pid, yield_only):
                             recs.append(("sync", o))
                             segment(d, me)
                         made = {}
-                        y = realize(d, st, made)
-                        run.yield_groups.extend((tid, g) for g in ordered_groups(st, []))
+                        if d.get("reyield") and d["reyield"][0] == k:
+                            y, made, snap = yielded[d["reyield"][1]]
+                        else:
+                            y = realize(d, st, made)
+                            snap = snapshot_of(y)
+                            run.yield_groups.extend((tid, g) for g in ordered_groups(st, []))
+                        yielded[k] = (y, made, snap)
                         run.running.pop()
                         try:
                             try:
@@ -403,11 +463,17 @@ def build_and_run(prog, pid, yield_only):
                                 run.running.append(tid)
                         except Exception as e:
                             segment(d, me)
+                            if not unmodified(y, snap):
+                                run.problem("C01", "a container the task yielded was modified by the scheduler", task=tid, step=k)
                             if d["catch"]:
                                 recs.append(("caught", tag(e)))
                                 continue
                             raise
                         segment(d, me)
+                        if not unmodified(y, snap):
+                            run.problem("C01", "a container the task yielded was modified by the scheduler (the task still holds it)", task=tid, step=k)
+                        if snap is not None and v is y and type(y) is not tuple:
+                            run.problem("C01", "the structure sent back for a yielded list/dict is the yielded object itself, not a new structure", task=tid, step=k)
                         deps_pending = [x for x in made.values() if isinstance(x, futures.FutureBase) and not x.is_computed()]
                         if deps_pending:
                             run.problem("C03", "a task was resumed while a future it yielded is still uncomputed", task=tid)
@@ -495,13 +561,14 @@ def build_and_run(prog, pid, yield_only):
     return run.problems
 
 
-def _programs(sync, n, seed0):
+def _programs(sync, n, seed0, dag=False):
     for seed in range(seed0, seed0 + n):
         rnd = random.Random(seed)
-        g = Gen(rnd, sync)
+        g = Gen(rnd, sync, dag=dag)
         d = g.task(0)
         while not d["steps"]:
             d = g.task(0)
+        _POOL["descs"], _POOL["ref"] = list(g.pool), {}
         yield seed, d
 
 
@@ -512,16 +579,19 @@ def random_programs_vs_sequential(req):
     pid = (req or {}).get("property") or "C01"
     tier = __import__("os").environ.get("VERIF_TIER", "quick")
     n = 1500 if tier != "thorough" else 15000
-    for yield_only in (True, False):
+    for family, yield_only, sync, dag, seed0 in (("yield-only", True, False, False, 1000), ("with synchronous calls", False, True, False, 5000),
+                                                 ("tasks awaited by several parents (yield-only)", True, False, True, 20000)):
         if not yield_only and pid in ("C04",):
             continue
-        for seed, prog in _programs(not yield_only, n, 1000 if yield_only else 5000):
+        if dag and pid in ("C06", "C07"):
+            continue
+        for seed, prog in _programs(sync, n, seed0, dag=dag):
             problems = build_and_run(prog, pid, yield_only)
             if problems:
                 p = problems[0]
                 p = dict(p)
                 what = p.pop("what")
-                return fail(what, family="yield-only" if yield_only else "with synchronous calls", seed=seed, **p)
+                return fail(what, family=family, seed=seed, **p)
     return None
 
 
@@ -533,23 +603,33 @@ def asyncio_random_programs(req):
     from asynq.asynq_to_async import is_asyncio_mode
     n = 300 if __import__("os").environ.get("VERIF_TIER", "quick") != "thorough" else 3000
 
+    ended = set()
+    late = []
+
     def build(d):
         @A()
         def body():
-            recs = []
-            for k, st in enumerate(d["steps"]):
-                y = realize(st)
-                try:
-                    v = yield y
-                except Exception as e:
-                    if d["catch"]:
-                        recs.append(("caught", e.tag if isinstance(e, RErr) else type(e).__name__))
-                        continue
-                    raise
-                recs.append(v)
-                if d["raise_at"] == k:
-                    raise RErr("own%d" % d["id"])
-            return (d["id"], recs)
+            try:
+                recs = []
+                for k, st in enumerate(d["steps"]):
+                    y = realize(st)
+                    try:
+                        v = yield y
+                    except Exception as e:
+                        # all awaitables yielded together have been awaited to completion before the failure is raised here
+                        missing = [t for t in task_leaves_in_order(st, []) if t not in ended]
+                        if missing:
+                            late.append((d["id"], k, missing))
+                        if d["catch"]:
+                            recs.append(("caught", e.tag if isinstance(e, RErr) else type(e).__name__))
+                            continue
+                        raise
+                    recs.append(v)
+                    if d["raise_at"] == k:
+                        raise RErr("own%d" % d["id"])
+                return (d["id"], recs)
+            finally:
+                ended.add(d["id"])
         return body
 
     def realize(st):
@@ -575,8 +655,15 @@ def asyncio_random_programs(req):
             prog = g.task(0)
         want = ref_task(prog)
         scheduler.reset()
+        ended.clear(); del late[:]
         got_sync = outcome(lambda: build(prog)())
+        if late:
+            return fail("fn(): a failure among futures yielded together was raised before all of them had completed", seed=seed, where=repr(late[:2]))
+        ended.clear(); del late[:]
         got_aio = outcome(lambda: asyncio.run(build(prog).asyncio()))
+        if late:
+            return fail("fn.asyncio(): a failure among awaitables yielded together was raised at the yield before all of them had completed",
+                        seed=seed, where=repr(late[:2]))
         if got_sync != want:
             return fail("fn() differs from sequential evaluation of a batch-free program", seed=seed, got=repr(got_sync)[:300], expected=repr(want)[:300])
         if got_aio != got_sync:
